@@ -17,6 +17,7 @@ op_ctx = dict(
         # start(): registration on the receiver's token, start of every child
         (r'stopCallback_\.construct\(\s*get_stop_token\(receiver_\),\s*cancel_operation<Receiver, Senders\.\.\.>\{\*this\}\)', 'EV_cb_construct(self)'),
         (r'ops_\.start\(\)', 'EV_start_children(self)'),
+        (r'stopSource_\.stop_requested\(\)', 'EV_children_stop_requested(self)'),
         (r'stopSource_\.request_stop\(\)', 'EV_stop_children(self)'),
         (r'stopCallback_\.destruct\(\)', 'EV_cb_destruct(self)'),
         (r'get_stop_token\(receiver_\)\.stop_requested\(\)', 'EV_stop_requested(self)'),
@@ -38,6 +39,7 @@ rcv_ctx = dict(
         (r'std::get<Index>\(op_\.values_\)\s*\.emplace\([^;]*\);', 'if (EV_store_value(self)) goto vf_catch;'),
         (r'this->set_error\(std::current_exception\(\)\)', 'element_receiver_set_error(self)'),
         (r'op_\.error_\.emplace\([^;]*\);', 'EV_store_error(self);'),
+        (r'op_\.stopSource_\.stop_requested\(\)', 'EV_children_stop_requested(self->op_)'),
         (r'op_\.stopSource_\.request_stop\(\)', 'EV_stop_children(self->op_)'),
         (r'\bop_\.', 'op_->'),
     ],
